@@ -1066,3 +1066,27 @@ Proof.
     - rewrite P. now apply Permutation_sym. }
   unfold rec_order in E. now rewrite E.
 Qed.
+
+(* ------------------------------------------------------------------ *)
+(* injected iff adopted; the case of one common exclusion list          *)
+
+Lemma injected_iff_adopted t root o m0 k :
+  NoDup (map fst m0) -> NoDup (map fst t) -> Permutation o (map fst m0) ->
+  lookup k (init_pkgs root m0) = None ->
+  (lookup k (expand_recursive t root o m0) <> None <-> exists r, adopter t (init_pkgs root m0) r k).
+Proof.
+  intros NDm NDt P E. rewrite (final_closed_form t root o m0 NDm NDt P k), E.
+  destruct (filter (fun r => adopts t (cfg_of (init_pkgs root m0) r) r k) (rec_order o (init_pkgs root m0))) as [|r rest] eqn:Ef.
+  - split; [intros H; now contradiction H|]. intros (r & Hr).
+    apply (filter_adopters_in t root o m0 P) in Hr. rewrite Ef in Hr. destruct Hr.
+  - split; [|intros _; apply absorb_cons_some]. intros _. exists r.
+    apply (filter_adopters_in t root o m0 P). rewrite Ef. now left.
+Qed.
+
+Definition excluded_by (xs : option (list pattern)) (k : str) : bool :=
+  existsb (fun p => pat_match p k) (match xs with Some l => l | None => [] end).
+
+Lemma adopter_uniform t m1 xs r k :
+  c_exsub (cfg_of m1 r) = xs ->
+  (adopter t m1 r k <-> is_recursive m1 r = true /\ In (k, true) t /\ is_subpkg r k = true /\ excluded_by xs k = false).
+Proof. intros <-. unfold adopter, exclude, excluded_by. tauto. Qed.
